@@ -1142,3 +1142,37 @@ func ruleClosedFirst(c *Ctx) {
 		c.check(okc, R, name+":closed-test-before-any-answer", pos, "every return passes the closed test", name+" can answer without having tested whether the handle is closed: on a closed handle of the wrong kind (write on a handle opened for reading) it returns nil and a message instead of raising")
 	}
 }
+
+// ruleCharRange: string.char writes one byte per argument; the conversion of the integer argument to a
+// byte is preceded by a range test 0..255 that raises (C15: byte-exact results; Lua raises "invalid
+// value" instead of wrapping 256 to "\0").
+func ruleCharRange(c *Ctx) {
+	const R = "R15-positions"
+	p := c.P
+	fn := c.need(R, "lua", "strChar")
+	if fn == nil {
+		return
+	}
+	g := p.G(fn)
+	n, okc := 0, true
+	allInstrs(fn, func(in ssa.Instruction) {
+		cv, ok := in.(*ssa.Convert)
+		if !ok {
+			return
+		}
+		bt, ok := cv.Type().Underlying().(*types.Basic)
+		if !ok || (bt.Kind() != types.Uint8 && bt.Kind() != types.Int8) {
+			return
+		}
+		if _, fromCall := cv.X.(*ssa.Call); !fromCall {
+			return
+		}
+		n++
+		up, lo, hasUp, hasLo := bounds(g, in, cv.X)
+		if !hasUp || !hasLo || up > 255 || lo < 0 {
+			okc = false
+		}
+	})
+	c.Sites++
+	c.check(n > 0 && okc, R, "strChar:argument-in-0..255", p.pos(fn.Pos()), "the integer is converted to a byte only within 0..255", "string.char converts its argument to a byte without a range test: string.char(256) silently yields \"\\0\" instead of raising 'invalid value'")
+}
